@@ -56,7 +56,7 @@ impl DcpsDomainParticipant {
                 let data_reader_handle = &data_reader.instance_handle.clone();
                 tracing::trace!(subscriber_handle=?subscriber_handle, data_reader_handle=?data_reader_handle, "Processing {} reader cache changes", changes.len());
 
-                for cache_change in changes {
+                'changes: for cache_change in changes {
                     if let Some(matched_participant) = discovered_participant_list
                         .iter_mut()
                         .find(|x| x.guid_prefix == cache_change.writer_guid.prefix())
@@ -90,7 +90,7 @@ impl DcpsDomainParticipant {
                                 *type_support,
                                 cache_change.data_value.as_ref(),
                             ) else {
-                                continue 'data_readers;
+                                continue 'changes;
                             };
                             enum Operator {
                                 LessThan,
@@ -155,7 +155,8 @@ impl DcpsDomainParticipant {
                                                 .parse()
                                                 .expect("valid number"),
                                         ) {
-                                            continue 'data_readers;
+                                            // Only this sample is filtered out
+                                            continue 'changes;
                                         }
                                     }
                                     crate::xtypes::dynamic_type::TypeKind::INT64 => todo!(),
@@ -177,7 +178,7 @@ impl DcpsDomainParticipant {
                                             member_value,
                                             &content_filtered_topic.expression_parameters[0],
                                         ) {
-                                            continue 'data_readers;
+                                            continue 'changes;
                                         }
                                     }
                                     crate::xtypes::dynamic_type::TypeKind::ALIAS => todo!(),
